@@ -6,8 +6,10 @@ import (
 	"encoding/json"
 	"fmt"
 	"os"
+	"os/exec"
 	"path/filepath"
 	"strings"
+	"time"
 )
 
 type CheckDef struct {
@@ -417,7 +419,8 @@ type Mutant struct {
 	File     string `json:"file"`
 	Old      string `json:"old"`
 	New      string `json:"new"`
-	Note     string `json:"note,omitempty"`
+	Note     string         `json:"note,omitempty"`
+	Filter   map[string]int `json:"filter,omitempty"`
 }
 
 func loadMutants() []Mutant {
@@ -455,7 +458,64 @@ func loadMutantOverlay(id string) map[string][]byte {
 	return nil
 }
 
-func selftestMain(args []string) int { return 2 }
+// selftestMain applies every seed mutant of mutants.json (through the
+// overlay: /repo is never touched) and expects the property's quick check to
+// report a violation.
+func selftestMain(args []string) int {
+	want := map[string]bool{}
+	for _, a := range args {
+		want[a] = true
+	}
+	self, _ := os.Executable()
+	type row struct {
+		ID, Property, Result, Note string
+		Seconds                    float64
+	}
+	var rows []row
+	escaped := 0
+	for _, m := range loadMutants() {
+		if len(want) > 0 && !want[m.Property] && !want[m.ID] {
+			continue
+		}
+		t0 := time.Now()
+		cmd := exec.Command(self, "check", m.Property, "quick", "--mutant", m.ID)
+		var flt []string
+		for k, v := range m.Filter {
+			flt = append(flt, fmt.Sprintf("%s=%d", k, v))
+		}
+		cmd.Env = append(os.Environ(), "GOSYM_JOBFILTER="+strings.Join(flt, ","), "GOSYM_SELFTEST=1")
+		out, _ := cmd.CombinedOutput()
+		rc := cmd.ProcessState.ExitCode()
+		res := "ESCAPED"
+		switch {
+		case rc == 1 && strings.Contains(string(out), "VIOLATION property="+m.Property):
+			res = "killed"
+		case rc == 2:
+			res = "inconclusive"
+			if strings.Contains(string(out), "package error") {
+				res = "does-not-compile"
+			}
+		}
+		if res != "killed" {
+			escaped++
+			tail := string(out)
+			if len(tail) > 600 {
+				tail = tail[len(tail)-600:]
+			}
+			fmt.Printf("--- %s output tail:\n%s\n", m.ID, tail)
+		}
+		rows = append(rows, row{m.ID, m.Property, res, m.Note, time.Since(t0).Seconds()})
+		fmt.Printf("%-24s %-4s %-16s %6.1fs  %s\n", m.ID, m.Property, res, time.Since(t0).Seconds(), m.Note)
+	}
+	b, _ := json.MarshalIndent(rows, "", " ")
+	os.MkdirAll(filepath.Join(verifRoot(), "work"), 0o755)
+	os.WriteFile(filepath.Join(verifRoot(), "work", "selftest.json"), b, 0o644)
+	fmt.Printf("selftest: %d mutants, %d not killed\n", len(rows), escaped)
+	if escaped > 0 {
+		return 1
+	}
+	return 0
+}
 
 func init() {
 	reg(&CheckDef{
